@@ -17,6 +17,10 @@
                requests: list (method:string url:string)   url = "http://" Host RequestURI
                error class (0 none 1 notfound 2 forbidden 3 gone 4 uritoolong 5 unexpected 6 other)
                NotFound(err):bool  has_data:bool  data: list (kind id)  panicked:bool
+   tag 2 (sequence): configured-base limiter | endpoint status body observed (first call)
+                     | endpoint status body observed (second call)
+                     | has_data:bool data (the first call's result re-read after the second call)
+     Results are values in the model: a later call cannot change an earlier result.
    codes: 1 = model <> implementation, 2 = the property oracle (SpecApi) fails on the
           observation, 0 = case does not parse. *)
 From Coq Require Import ZArith List String Ascii Bool.
@@ -167,8 +171,31 @@ Definition check_call : P (list Z) :=
               w_resp := {| r_status := st; r_body := b |} |} in
   ret (code_if (model_agrees cfg w ep ob) 1 ++ code_if (spec_agrees cfg w ep ob) 2).
 
+Definition data_eqb (d : option (list el)) (has : bool) (l : list el) : bool :=
+  match d with Some x => has && els_eqb x l | None => negb has end.
+
+Definition check_seq : P (list Z) :=
+  cfg <- pstr ;; lim <- plimiter ;;
+  ep1 <- pendpoint ;; st1 <- pint ;; b1 <- pbody ;; ob1 <- pobserved ;;
+  ep2 <- pendpoint ;; st2 <- pint ;; b2 <- pbody ;; ob2 <- pobserved ;;
+  ahas <- pbool ;; adata <- plist pel ;;
+  let w1 := plain_world lim {| r_status := st1; r_body := b1 |} in
+  let w2 := plain_world lim {| r_status := st2; r_body := b2 |} in
+  (* model: the first result is the value the first call returned *)
+  let j1 := model_agrees cfg w1 ep1 ob1 && model_agrees cfg w2 ep2 ob2 &&
+            data_eqb (o_data (call_w cfg w1 ep1)) ahas adata in
+  (* property: the first call's result is (still) exactly the elements of ITS response *)
+  let j2 := spec_agrees cfg w1 ep1 ob1 && spec_agrees cfg w2 ep2 ob2 &&
+            (if permitted w1 ep1 then
+               match spec_result_w w1 ep1 with
+               | XData l => ahas && els_eqb l adata
+               | XErr _ => negb ahas
+               end
+             else negb ahas) in
+  ret (code_if j1 1 ++ code_if j2 2).
+
 Definition check_case (t : toks) : list Z :=
-  match parse_all (tag <- pint ;; if tag =? 1 then check_call else pfail) t with
+  match parse_all (tag <- pint ;; if tag =? 1 then check_call else if tag =? 2 then check_seq else pfail) t with
   | Some codes => codes
   | None => [0]
   end.
